@@ -1,0 +1,26 @@
+//go:build verif
+
+package pppoe
+
+import "time"
+
+// Verification hooks for the Authenticator (property C04 of /verif, component pppauth).
+// Add-only, compiled only with -tags verif.  No behaviour of the package is changed.
+
+// VerifAgeLastFailure moves the time of the last recorded authentication failure d into the past,
+// so that the harness can cross the one-minute rate-limit window without waiting for it.
+func (a *Authenticator) VerifAgeLastFailure(d time.Duration) {
+	a.mu.Lock()
+	defer a.mu.Unlock()
+	if !a.lastFailure.IsZero() {
+		a.lastFailure = a.lastFailure.Add(-d)
+	}
+}
+
+// VerifSetCHAPID pre-sets the CHAP identifier counter so that the harness can reach the
+// uint8 wrap-around (255 -> 0) without issuing 255 challenges first.
+func (a *Authenticator) VerifSetCHAPID(id uint8) {
+	a.mu.Lock()
+	defer a.mu.Unlock()
+	a.chapID = id
+}
